@@ -120,6 +120,10 @@ def contracts(repo):
     # the fragments travel in the replies / requests the dialect produces (contracts of C01): the data is present for status 0x06 as for 0x00
     from . import C01 as _C01
     items += [s for s in _C01.logix_produce_specs() if 'frag' in s.name]
+    # a client that walks the fragments receives each Read Tag Fragmented reply through the Unconnected Send parser, whose is_uerr predicate (contract of C06)
+    # decides whether a short 0xD2 payload is the fragment or an error of the wrapper
+    from . import C06 as _C06
+    items.append(_C06.is_uerr_spec())
     return items
 
 
